@@ -3,7 +3,8 @@
    LabelJson.v (label sets), SeriesIndex.v (request histories), Dates.v (days and time zones). *)
 From Coq Require Import List ZArith Bool String Permutation.
 From Qryn Require Import model.GoQuote model.LabelJson model.Fingerprint model.Labels
-  proofs.FingerprintProofs proofs.LabelsProofs.
+  model.SeriesIndex model.Dates
+  proofs.FingerprintProofs proofs.LabelsProofs proofs.SeriesIndexProofs proofs.DatesProofs.
 Import ListNotations.
 Open Scope Z_scope.
 
@@ -60,3 +61,51 @@ Theorem label_document_roundtrip_partial : forall isprint ls,
   labels_safe ls = true -> json_decode (encode_labels isprint ls) = Some ls.
 Proof. exact label_document_roundtrip_safe. Qed.
 Print Assumptions label_document_roundtrip_partial.
+
+(* (b) Every acknowledged sample has a successfully inserted series row for its day, in every
+   history of pushes (any streams, any insert outcomes) and cache resets: FALSE of the code as it is.
+   The pair (day, fingerprint) is marked as announced while parsing; if the series insert then fails
+   (5xx), the client's retry finds the pair cached, sends no series row and is acknowledged. *)
+Theorem acked_sample_is_indexed_refuted :
+  exists h, all_indexed (run init h) = false.
+Proof. exists w_retry. exact w_retry_not_indexed. Qed.
+Print Assumptions acked_sample_is_indexed_refuted.
+
+(* ... and true of every history in which, after a push whose series insert failed, nothing is
+   pushed before the next cache reset (any number of series, days, retries, sample-insert failures). *)
+Theorem acked_sample_is_indexed_partial : forall h,
+  clean_hist false h = true -> all_indexed (run init h) = true.
+Proof. exact acked_indexed_clean. Qed.
+Print Assumptions acked_sample_is_indexed_partial.
+
+(* The read side selects series rows by sample type (type IN (t, 0)). With the type taken into
+   account the statement fails even without any fault: a label set first seen with log lines, then
+   (same day, same cache epoch) with metric values gets no type-2 row. *)
+Theorem acked_sample_is_indexed_typed_refuted :
+  exists h, clean_hist false h = true /\ all_indexed_typed (run init h) = false.
+Proof. exists w_types. destruct w_types_not_indexed as [H1 H2]. split; assumption. Qed.
+Print Assumptions acked_sample_is_indexed_typed_refuted.
+
+(* It holds when, additionally, a fingerprint always arrives with the same set of sample types. *)
+Theorem acked_sample_is_indexed_typed_partial : forall h,
+  clean_hist false h = true -> types_stable h = true -> all_indexed_typed (run init h) = true.
+Proof. exact acked_indexed_typed_clean. Qed.
+Print Assumptions acked_sample_is_indexed_typed_partial.
+
+(* (c) The series row of a sample is stored under a day the reader's lower date bound
+   (UTC day of from - 30 min) does not exclude, for EVERY process time zone tz, every query start
+   from <= the sample's second (timestamps from 1970 up to the end of the Date range, 2149). Holds
+   of the code after the fix of the zone-dependent date (findings.d/C04.txt). *)
+Theorem series_day_visible : forall tz from ts_ns,
+  0 <= ts_ns -> ts_ns < 65536 * 86400 * 1000000000 ->
+  from <= secs_of_ns ts_ns ->
+  reader_from_day from <= series_day tz ts_ns.
+Proof. exact series_day_visible_all. Qed.
+Print Assumptions series_day_visible.
+
+(* the stored day is exactly the sample's UTC day, whatever the process zone *)
+Theorem series_day_is_utc : forall tz ts_ns,
+  0 <= ts_ns -> ts_ns < 65536 * 86400 * 1000000000 ->
+  series_day tz ts_ns = utc_day (secs_of_ns ts_ns).
+Proof. exact series_day_is_utc_day. Qed.
+Print Assumptions series_day_is_utc.
